@@ -23,6 +23,9 @@ claimed = {
  "C05": std("AMF0 trees (shapes forked, contents symbolic: all 2^64 number bit patterns incl. NaN payloads/-0, booleans, string bytes) marshal to exactly Size() bytes, unmarshal to an equal tree in key order and re-marshal to the same bytes; for every byte string up to the bound that decodes, Size() equals the bytes consumed as counted by an independent grammar-level decoder, including repeated/empty keys and trailing bytes."),
  "C06": std("Library encodings are decoded to the same value by a reference decoder written from the AMF0 specification and reference encodings by the library; all 256 markers: supported ones give the right type, all others an error. One recorded known finding (keyed strict arrays)."),
  "C20": std("Rate meters: a window samples iff a full window passed (integer/time logic by bit-vector queries), slower windows only after faster ones, rate bit-exactly equal to the IEEE evaluation of growth*1000/window_ms and proved finite and non-negative for every counter value (stall, backwards, wrap) in the FP theory; average and kbit/s scaling likewise; reading before Start panics."),
+ "C08": ("Fault enumeration decided per path by the solver: every cut offset of generated RTMP sessions and FLV files and every failing write call is a forked fault position; on each, the operation returns a non-nil error whose errors.Cause is exactly the transport's error, the items returned before are exactly those completely transferred (contents symbolic), and nothing incomplete is returned with a nil error; the errors package keeps cause and message chain for every nesting of its constructors.",
+         "Bounds per harness are in evidence.coverage.bounds. " + TRUST,
+         "bounded symbolic execution of go/ssa + SMT with exhaustive fault-position forking"),
  "C09": std("FLV muxer bytes equal an independent FLV v1 writer for symbolic flags/type/timestamp/body bytes and boundary body sizes; muxer and reference files are demuxed to identical tags under every forked read segmentation."),
  "C10": std("FLV audio/video packagers: decode(encode(f)) == f for every valid frame with fields symbolic over their Go types; encode(decode(b)) == b for every accepted canonical body of 1-7 bytes; rate-code conversions equal the FLV/Opus definitions."),
  "C12": std("AVC NAL units (all 256 header bytes), configuration records and samples: marshal equals an ISO/IEC 14496-15 reference writer byte for byte, unmarshal inverts both, canonical encodings re-marshal to themselves."),
